@@ -184,7 +184,7 @@ theorem C13_only_parse_error_fails_unguarded :
   exact h 1 (97 :: List.replicate (4300 + 1) 49) .value ∅
     (C13_unguarded_digit_run_crashes 4300 0 ∅ (by decide))
 
-/-- and with the guard the same inputs are plain ParseErrors -/
+/-- and with the guard the same inputs never crash: the outcome is a ParseError or a sentence -/
 theorem C13_guarded_digit_run (limit fuel : Nat) (store : Store)
     (hok : store.OK polishCfg.maxi) (hcons : store.Consistent) (hf : store.frozen = false) :
     ∃ st', parsePolish { polishCfg with intMaxDigits := limit } fuel store
